@@ -13,8 +13,10 @@ package elem
 
 import (
 	"fmt"
+	"runtime"
 	"strconv"
 	"sync"
+	"unsafe"
 )
 
 // Kind names, as stored in the Elem field of a case ("" = the harness's
@@ -23,7 +25,7 @@ const (
 	Int   = "int"    // plain int; cannot carry an ID
 	Str   = "string" // fixed-width decimal text, ordered like the ints (ID appended when non-zero)
 	I16   = "i16"    // int16: a 2-byte element; V must lie in [-32768, 32767]; cannot carry an ID
-	Wide  = "wide"   // comparable struct of 96 bytes (> 64) holding strings and an array
+	Wide  = "wide"   // comparable struct of 88 bytes (> 64) holding a string and arrays
 	Ptr   = "ptr"    // *Cell: every Make returns a NEW pointer; pointees of equal V are deeply equal
 	Bytes = "bytes"  // []byte (not comparable): only for APIs whose element constraint is any
 	Any   = "any"    // interface type any holding a *Cell: == is pointer identity, reflect.DeepEqual is not
@@ -128,7 +130,7 @@ func StrKit() Kit[string] {
 	})
 }
 
-// WideElem is a comparable struct of 96 bytes.
+// WideElem is a comparable struct of 88 bytes.
 type WideElem struct {
 	Pad0 [3]int64
 	Val  int
@@ -151,23 +153,31 @@ func WideKit() Kit[WideElem] {
 
 // Cell is the pointee of the Ptr kind.  It holds V only: two cells of equal V
 // are deeply equal whatever their IDs, which live in a side table keyed by
-// the pointer.
+// the pointer's address.
 type Cell struct{ V int }
 
+// The side table is keyed by the cell's address and does not keep the cell
+// alive; a finalizer removes the entry when the cell is collected.  It is safe
+// for concurrent use and never needs resetting, so parallel workers cannot
+// disturb one another.
 var (
 	cellMu  sync.Mutex
-	cellIDs = map[*Cell]int{}
+	cellIDs = map[uintptr]int{}
 )
 
-// PtrKit: T = *Cell.  The ID table grows with every Make; ResetPtr drops it
-// (call it at the start of a case).
+// PtrKit: T = *Cell.
 func PtrKit() Kit[*Cell] {
 	return finish(Kit[*Cell]{Kind: Ptr, HasID: true,
 		Make: func(v, id int) *Cell {
 			c := &Cell{V: v}
 			cellMu.Lock()
-			cellIDs[c] = id
+			cellIDs[uintptr(unsafe.Pointer(c))] = id
 			cellMu.Unlock()
+			runtime.SetFinalizer(c, func(c *Cell) {
+				cellMu.Lock()
+				delete(cellIDs, uintptr(unsafe.Pointer(c)))
+				cellMu.Unlock()
+			})
 			return c
 		},
 		V: func(c *Cell) int {
@@ -179,7 +189,7 @@ func PtrKit() Kit[*Cell] {
 		ID: func(c *Cell) int {
 			cellMu.Lock()
 			defer cellMu.Unlock()
-			id, ok := cellIDs[c]
+			id, ok := cellIDs[uintptr(unsafe.Pointer(c))]
 			if !ok {
 				return -1 << 40 // a pointer the harness never made
 			}
@@ -189,12 +199,10 @@ func PtrKit() Kit[*Cell] {
 	})
 }
 
-// ResetPtr forgets the identities handed out by PtrKit so far.
-func ResetPtr() {
-	cellMu.Lock()
-	cellIDs = map[*Cell]int{}
-	cellMu.Unlock()
-}
+// ResetPtr is kept for callers written against the first version of this
+// package, whose identity table had to be dropped between cases; it does
+// nothing now.
+func ResetPtr() {}
 
 // BytesKit: T = []byte holding EncodeStr(v, id).  Same compares the backing
 // arrays (and lengths).
